@@ -1085,16 +1085,24 @@ static void ts_parser__accept(
         ts_assert(!tree.data.is_inline);
         uint32_t child_count = ts_subtree_child_count(tree);
         const Subtree *children = ts_subtree_children(tree);
+        // The root is rebuilt from its children (plus the surrounding extras), which
+        // recomputes its dynamic precedence from the children alone. Carry over the
+        // part that came from the root's own production, so that a `prec.dynamic` on
+        // the start rule still takes part in the choice between finished trees.
+        int32_t own_dynamic_precedence = ts_subtree_dynamic_precedence(tree);
         for (uint32_t k = 0; k < child_count; k++) {
           ts_subtree_retain(children[k]);
+          own_dynamic_precedence -= ts_subtree_dynamic_precedence(children[k]);
         }
         array_splice(&trees, j, 1, child_count, children);
-        root = ts_subtree_from_mut(ts_subtree_new_node(
+        MutableSubtree new_root = ts_subtree_new_node(
           ts_subtree_symbol(tree),
           &trees,
           tree.ptr->production_id,
           self->language
-        ));
+        );
+        new_root.ptr->dynamic_precedence += own_dynamic_precedence;
+        root = ts_subtree_from_mut(new_root);
         ts_subtree_release(&self->tree_pool, tree);
         break;
       }
